@@ -223,4 +223,245 @@ theorem process_idempotent_false :
 example : GName "__".toList ∧ trigFallbackNotFixed ⟨true, false, false⟩ "__".toList = true := by decide
 example : GName "fooBar".toList ∧ trigFallbackNotFixed ⟨true, true, true⟩ "fooBar".toList = false := by decide
 
+
+/-! ## 6. The wire name is kept -/
+
+/-- `wire_name_kept`: in every scope and for every name, the name that travels is the original:
+    pydantic fields carry `alias=<original>` exactly when the Python name differs (else the Python
+    name *is* the original), variables are keyed by the original in the `variables` dict, operations
+    are sent under the original `operation_name`, enum members keep the original as their value. -/
+theorem wire_name_kept (snakeSetting : Bool) (s : Scope) (n : Name) : (emit snakeSetting s n).wire = n := by
+  cases s <;> simp only [emit]
+  · by_cases h : pyName snakeSetting .resultField n = n <;> simp [h]
+  · by_cases h : pyName snakeSetting .inputField n = n <;> simp [h]
+
+/-- the alias is emitted exactly when needed -/
+theorem alias_iff (snakeSetting : Bool) (n : Name) :
+    ((emit snakeSetting .resultField n).alias = some n ↔ (emit snakeSetting .resultField n).py ≠ n) ∧
+    ((emit snakeSetting .inputField n).alias = some n ↔ (emit snakeSetting .inputField n).py ≠ n) := by
+  constructor
+  · by_cases h : pyName snakeSetting .resultField n = n <;> simp [emit, h]
+  · by_cases h : pyName snakeSetting .inputField n = n <;> simp [emit, h]
+
+example : emit true .resultField "fooBar".toList = ⟨"foo_bar".toList, some "fooBar".toList, "fooBar".toList⟩ := by decide
+example : emit true .resultField "__typename".toList = ⟨"typename__".toList, some "__typename".toList, "__typename".toList⟩ := by decide
+example : emit false .inputField "x".toList = ⟨"x".toList, none, "x".toList⟩ := by decide
+
+/-! ## 7. When do two names of one scope get the same Python name? -/
+
+/-- `collision_iff`: for GraphQL names `a`, `b` and every flag combination, `process_name` gives
+    both the same Python name  ⇔  they are equal or the pair lies in one of the four merge regions
+    (C18-F1 same lower-cased words under snake-casing; C18-F2 equal after `lstrip("_")`;
+    C18-F3 keyword/reserved name vs. its suffixed form; C18-F7 all-underscore vs. the fallback literal).
+    The regions are stated on the inputs only (Model/Names.lean) and are therefore exact. -/
+theorem collision_iff (cfg : Cfg) (a b : Name) (ha : GName a) (hb : GName b) :
+    processName cfg a = processName cfg b ↔ (a = b ∨ trigMerge cfg a b = true) := by
+  cases hs : cfg.snake
+  · cases ht : cfg.trim
+    · rw [collide_plain cfg hs ht a b (gname_ne_nil ha) (gname_ne_nil hb)]
+      simp [trigMerge, trigSnakeMerge, trigTrimMerge, trigSuffixMerge, trigFallbackMerge, stem, hs, ht]
+    · rw [collide_trim cfg hs ht a b (gname_ne_nil ha) (gname_ne_nil hb)]
+      simp only [TrimRHS, trigMerge, trigSnakeMerge, trigTrimMerge, trigSuffixMerge, trigFallbackMerge, stem, hs, ht]
+      simp only [Bool.false_and, Bool.false_or, Bool.not_false, Bool.true_and, Bool.or_eq_true, Bool.and_eq_true,
+        beq_iff_eq, bne_iff_ne, ne_eq, Bool.not_eq_true', if_true]
+      constructor
+      · rintro (h | h | h | h)
+        · exact Or.inl h
+        · exact Or.inr (Or.inl (Or.inl h))
+        · exact Or.inr (Or.inl (Or.inr h))
+        · exact Or.inr (Or.inr (by simpa [and_assoc] using h))
+      · rintro (h | (h | h) | h)
+        · exact Or.inl h
+        · exact Or.inr (Or.inl h)
+        · exact Or.inr (Or.inr (Or.inl h))
+        · exact Or.inr (Or.inr (Or.inr (by simpa [and_assoc] using h)))
+  · rw [collide_snake cfg hs a b ha hb]
+    simp only [trigMerge, trigSnakeMerge, trigTrimMerge, trigSuffixMerge, trigFallbackMerge, hs]
+    simp only [Bool.true_and, Bool.not_true, Bool.false_and, Bool.or_false, beq_iff_eq]
+    constructor
+    · intro h; exact Or.inr h
+    · rintro (h | h)
+      · rw [h]
+      · exact h
+
+example : trigMerge ⟨true, true, true⟩ "fooBar".toList "foo_bar".toList = true := by decide
+example : trigMerge ⟨false, true, true⟩ "_x".toList "x".toList = true := by decide
+example : trigMerge ⟨false, false, false⟩ "class".toList "class_".toList = true := by decide
+example : trigMerge ⟨false, true, true⟩ "_class".toList "class".toList = false := by decide
+example : trigMerge ⟨false, true, true⟩ "fooBar".toList "foo_bar".toList = false := by decide
+
+
+/-! ## 8. Scopes: the property at full strength, its refutation, and the exact supported region -/
+
+/-- Two names of one scope get the same Python name ⇔ they are equal or lie in a merge region of
+    that scope (the four regions of `collision_iff` under the scope's flags, plus C18-F8 for
+    response keys: `__typename` ↦ `typename__` meets names that strip to `typename__`). -/
+theorem scope_collision_iff (snakeSetting : Bool) (s : Scope) (a b : Name) (ha : GName a) (hb : GName b) :
+    pyName snakeSetting s a = pyName snakeSetting s b ↔ (a = b ∨ trigScopeMerge snakeSetting s a b = true) := by
+  have hane := gname_ne_nil ha
+  have hbne := gname_ne_nil hb
+  by_cases hT : s = .resultField ∧ (a = typenameField ∨ b = typenameField)
+  · obtain ⟨hs, hab⟩ := hT
+    subst hs
+    simp only [trigScopeMerge, true_and, hab, if_true]
+    have key : ∀ x : Name, GName x → x ≠ typenameField →
+        (pyName snakeSetting .resultField x = typenameAlias ↔
+          (snakeSetting = false ∧ lstripU x = typenameAlias)) := by
+      intro x hx hne
+      rw [pyName_eq snakeSetting .resultField x (gname_ne_nil hx) (fun h => hne h.2)]
+      cases snakeSetting
+      · simp only [true_and]
+        exact processName_trim_eq_typenameAlias_iff _ rfl rfl x (gname_ne_nil hx)
+      · simp only [Bool.true_eq_false, false_and, iff_false]
+        exact processName_snake_ne_typenameAlias _ rfl x
+    by_cases hae : a = typenameField <;> by_cases hbe : b = typenameField
+    · simp [hae, hbe]
+    · rw [hae, pyName_typename, eq_comm, key b hb hbe]
+      have : typenameField ≠ b := fun e => hbe e.symm
+      simp [trigTypenameClash, hbe, this]
+    · rw [hbe, pyName_typename, key a ha hae]
+      simp [trigTypenameClash, hae]
+    · rcases hab with h | h
+      · exact absurd h hae
+      · exact absurd h hbe
+  · have h1 : ¬ (s = .resultField ∧ a = typenameField) := fun h => hT ⟨h.1, Or.inl h.2⟩
+    have h2 : ¬ (s = .resultField ∧ b = typenameField) := fun h => hT ⟨h.1, Or.inr h.2⟩
+    rw [pyName_eq snakeSetting s a hane h1, pyName_eq snakeSetting s b hbne h2, collision_iff _ a b ha hb]
+    simp [trigScopeMerge, hT]
+
+/-- In every scope the emitted name is a usable Python name ⇔ the name is in no single-name region. -/
+theorem scope_valid_iff (snakeSetting : Bool) (s : Scope) (n : Name) (hg : GName n) :
+    OutOK (scopeCfg snakeSetting s) (pyName snakeSetting s n) ↔ trigScopeSingle snakeSetting s n = false := by
+  by_cases hT : s = .resultField ∧ n = typenameField
+  · obtain ⟨hs, hn⟩ := hT
+    subst hs; subst hn
+    rw [pyName_typename]
+    simp only [trigScopeSingle, true_and, if_true, iff_true]
+    exact (outOK_iff _ _).mpr ⟨typename_tables.2.2.2.1, suspect_typenameAlias _⟩
+  · rw [pyName_eq snakeSetting s n (gname_ne_nil hg) hT, valid_identifier_iff _ n hg]
+    simp [trigScopeSingle, hT]
+
+/-- What the property demands of one scope of generated code: distinct GraphQL names keep distinct
+    Python names, every Python name is usable, every name travels under its original spelling. -/
+def Lawful (snakeSetting : Bool) (s : Scope) (names : List Name) : Prop :=
+  (scopeNames snakeSetting s names).Nodup ∧
+  ∀ n ∈ names, OutOK (scopeCfg snakeSetting s) (pyName snakeSetting s n) ∧ (emit snakeSetting s n).wire = n
+
+instance (sn : Bool) (s : Scope) (names : List Name) : Decidable (Lawful sn s names) := by
+  unfold Lawful; infer_instance
+
+/-- C18 at full strength: "Every GraphQL name that becomes a Python name is mapped to a valid
+    identifier that is not a keyword and does not shadow a pydantic model attribute; … the original
+    name stays the wire name.  Two distinct names in one scope are never silently merged into one
+    Python name: both remain usable or generation fails with an error."  (`scopeRefused` is the only
+    name-dependent refusal the generators contain.) -/
+def C18_full : Prop :=
+  ∀ (fixed : List Name) (snakeSetting : Bool) (s : Scope) (names : List Name),
+    (∀ n ∈ names, GName n) → names.Nodup →
+      scopeRefused fixed s names = true ∨ Lawful snakeSetting s names
+
+/-- The region outside every known finding: no name of the scope in a single-name region
+    (C18-F4, C18-F5), no two distinct names of it in a merge region (C18-F1, F2, F3, F7, F8). -/
+def Supported_18 (snakeSetting : Bool) (s : Scope) (names : List Name) : Prop :=
+  (∀ n ∈ names, trigScopeSingle snakeSetting s n = false) ∧
+  (∀ a ∈ names, ∀ b ∈ names, a ≠ b → trigScopeMerge snakeSetting s a b = false)
+
+instance (sn : Bool) (s : Scope) (names : List Name) : Decidable (Supported_18 sn s names) := by
+  unfold Supported_18; infer_instance
+
+/-- `C18_full_false`: the property is false on the pinned tree - nothing refuses `fooBar` and
+    `foo_bar` as two response keys, and they become one pydantic field. -/
+theorem C18_full_false : ¬ C18_full := by
+  intro h
+  have := h [] true .resultField ["fooBar".toList, "foo_bar".toList] (by decide) (by decide)
+  revert this
+  decide
+
+/-- fixed module stems of a package generated with the default settings -/
+def defaultFixed : List Name :=
+  ["client", "async_base_client", "base_model", "enums", "input_types", "fragments", "exceptions"].map String.toList
+
+/-- a counterexample to `C18_full`: GraphQL names, distinct, not refused, not lawful -/
+def Bad (sn : Bool) (s : Scope) (names : List String) : Prop :=
+  (∀ n ∈ names.map String.toList, GName n) ∧ (names.map String.toList).Nodup ∧
+  scopeRefused defaultFixed s (names.map String.toList) = false ∧ ¬ Lawful sn s (names.map String.toList)
+
+instance (sn : Bool) (s : Scope) (names : List String) : Decidable (Bad sn s names) := by
+  unfold Bad; infer_instance
+
+/-- the other witnesses, one per finding and scope -/
+theorem C18_witnesses :
+    Bad true .inputField ["fooBar", "foo_bar"] ∧ Bad true .variable ["fooBar", "foo_bar"] ∧
+    Bad false .operation ["fooBar", "FooBar"] ∧                 -- C18-F1 (operations are always snake-cased)
+    Bad false .resultField ["_x", "x"] ∧ Bad false .inputField ["__x", "_x"] ∧   -- C18-F2
+    Bad true .enumValue ["class", "class_"] ∧ Bad false .variable ["class", "class_"] ∧
+    Bad false .resultField ["copy", "copy_"] ∧                  -- C18-F3
+    Bad true .resultField ["_1"] ∧ Bad false .inputField ["_1"] ∧               -- C18-F4
+    Bad false .resultField ["_class"] ∧ Bad false .inputField ["_copy"] ∧       -- C18-F5
+    Bad false .inputField ["_", "underscore_named_field_"] ∧                    -- C18-F7
+    Bad false .resultField ["__typename", "typename__"] := by                   -- C18-F8
+  decide
+
+/-- `C18_partial`, in its exact form: for GraphQL names without repetition, a scope is lawful
+    ⇔ it lies outside every finding region.  (⇐ is the partial theorem; ⇒ says the regions are not
+    wider than the defects.)  No refusal is needed on the supported side. -/
+theorem C18_exact (snakeSetting : Bool) (s : Scope) (names : List Name)
+    (hg : ∀ n ∈ names, GName n) (hnd : names.Nodup) :
+    Lawful snakeSetting s names ↔ Supported_18 snakeSetting s names := by
+  constructor
+  · rintro ⟨hn, hall⟩
+    refine ⟨fun n hn' => (scope_valid_iff snakeSetting s n (hg n hn')).mp (hall n hn').1, ?_⟩
+    intro a ha b hb hab
+    cases ht : trigScopeMerge snakeSetting s a b
+    · rfl
+    · exfalso
+      have e := (scope_collision_iff snakeSetting s a b (hg a ha) (hg b hb)).mpr (Or.inr ht)
+      exact hab (inj_of_nodup_map _ names hn a ha b hb e)
+  · rintro ⟨h1, h2⟩
+    refine ⟨?_, fun n hn => ⟨(scope_valid_iff snakeSetting s n (hg n hn)).mpr (h1 n hn), wire_name_kept snakeSetting s n⟩⟩
+    apply nodup_map_of_inj _ names hnd
+    intro a ha b hb e
+    rcases (scope_collision_iff snakeSetting s a b (hg a ha) (hg b hb)).mp e with h | h
+    · exact h
+    · cases hab : decide (a = b)
+      · have := h2 a ha b hb (of_decide_eq_false hab); rw [this] at h; exact absurd h (by simp)
+      · exact of_decide_eq_true hab
+
+theorem C18_partial (fixed : List Name) (snakeSetting : Bool) (s : Scope) (names : List Name)
+    (hg : ∀ n ∈ names, GName n) (hnd : names.Nodup) (hs : Supported_18 snakeSetting s names) :
+    scopeRefused fixed s names = true ∨ Lawful snakeSetting s names :=
+  Or.inr ((C18_exact snakeSetting s names hg hnd).mpr hs)
+
+/-- non-vacuity: a realistic scope satisfies the hypotheses -/
+example : (∀ n ∈ ["id", "firstName", "HTTPStatus", "class", "copy", "__typename", "_private"].map String.toList, GName n) ∧
+    (["id", "firstName", "HTTPStatus", "class", "copy", "__typename", "_private"].map String.toList).Nodup ∧
+    Supported_18 true .resultField (["id", "firstName", "HTTPStatus", "class", "copy", "__typename", "_private"].map String.toList) := by
+  decide
+
+/-! ## 9. Injectivity on canonical names -/
+
+/-- a canonical name: the image of a GraphQL name outside the two regions where the image is not a fixed point -/
+def Canonical (cfg : Cfg) (m : Name) : Prop :=
+  ∃ n, GName n ∧ trigFallbackNotFixed cfg n = false ∧ trigTrimToKeyword cfg n = false ∧ processName cfg n = m
+
+theorem canonical_fixed (cfg : Cfg) (m : Name) (h : Canonical cfg m) : processName cfg m = m := by
+  obtain ⟨n, hg, h6, h5, rfl⟩ := h
+  exact process_idempotent cfg n hg h6 h5
+
+/-- `injective_on_canonical`: `process_name` is injective on names that are already in its image
+    (it fixes them). -/
+theorem injective_on_canonical (cfg : Cfg) (a b : Name) (ha : Canonical cfg a) (hb : Canonical cfg b)
+    (h : processName cfg a = processName cfg b) : a = b := by
+  rw [canonical_fixed cfg a ha, canonical_fixed cfg b hb] at h; exact h
+
+/-- ... but not on the whole image: with snake-casing on, the fallback literal (image of `_`) and
+    its own image `underscore_named_field` are both in the image and are mapped to the same name. -/
+theorem injective_on_image_false :
+    let cfg : Cfg := ⟨true, true, true⟩
+    let a := processName cfg "_".toList
+    let b := processName cfg "underscoreNamedField".toList
+    a ≠ b ∧ processName cfg a = processName cfg b := by decide
+
+example : Canonical ⟨true, true, true⟩ "foo_bar".toList := ⟨"fooBar".toList, by decide, by decide, by decide, by decide⟩
+
 end Ariadne.C18
